@@ -403,6 +403,8 @@ func reexec(goit string, rf *ReplayFile, dir string) (bool, []JFail, error) {
 	jr := c.JudgeWant("GoitTrace", 10*time.Minute, []string{rf.Property})
 	if k := os.Getenv("VERIF_KEEP"); k != "" {
 		os.MkdirAll(k, 0o777)
+		os.RemoveAll(filepath.Join(k, "repo"))
+		copyTree(base, filepath.Join(k, "repo"))
 		writeNdjson(filepath.Join(k, "trace.ndjson"), c.Lines)
 		writeJson(filepath.Join(k, "tables.json"), c.T.Dump())
 	}
